@@ -147,7 +147,11 @@ inductive Stmt (τ : Type) where
   | delayIter (period : τ) (maxIter : Nat) (body : List (Stmt τ))
   -- flow
   | collect (progs : List (List (Stmt τ)))
-  | first (progs : List (List (Stmt τ))) (count : Option Nat) (body : List (Stmt τ))
+  /-- `async for winner in first(*progs, count=count): body` - leaving the loop with `break`
+  after `brk` results if given -/
+  | first (progs : List (List (Stmt τ))) (count : Option Nat) (brk : Option Nat) (body : List (Stmt τ))
+  | monitor (prog : List (Stmt τ)) (q : Name)        -- library: `_first_monitor(contestant, queue)`
+  | firstLoop (q : Name) (count : Nat) (brk : Option Nat) (body : List (Stmt τ))   -- library: the `islice` loop of `first`
   | nestedRun (progs : List (List (Stmt τ))) (start : τ)       -- `usim.run(...)` called from inside an activity
   deriving Inhabited
 
@@ -258,6 +262,8 @@ structure Task where
   result : Option (Int × Option ExnId) := none
   cancellations : List SigId := []
   done : CondId
+  /-- the payload is library code (`_first_monitor`): its end is not an observation of the program -/
+  quiet : Bool := false
   deriving Inhabited
 
 structure Scope where
@@ -407,6 +413,17 @@ inductive Frame (τ : Type) where
   | tickBody (isInterval : Bool) (period last : τ) (remaining : Nat) (body : List (Stmt τ))
   /-- `collect()`: awaiting the tasks in argument order after its scope ended -/
   | collectAwait (todo : List Name) (acc : List Int)
+  /-- `first()`: the monitor of one contestant (`await queue.put(result)` comes next); the
+  generator fetching the next result / having got it; the consumer's body running while the
+  generator is suspended at its `yield` (with the number of results `islice` still admits and the
+  number of results until the consumer's `break`); the end of the `async for` statement
+  (`closing`: the abandoned generator is being finalised, `pending`: the exception of the
+  consumer's body that goes on afterwards) -/
+  | firstMonitor (q : Name)
+  | firstNext (q : Name) (remaining : Nat) (brk : Option Nat) (body : List (Stmt τ))
+  | firstGot (q : Name) (remaining : Nat) (brk : Option Nat) (body : List (Stmt τ))
+  | firstYield (q : Name) (remaining : Nat) (brk : Option Nat) (body : List (Stmt τ))
+  | firstEnd (closing : Bool) (pending : Option ExnId)
   /-- statement-level markers: completion of `transfer`, of an `async with borrow/claim` block -/
   | transferDone (p : Name)
   | borrowMark (r : Name)
